@@ -11,8 +11,11 @@
        (binding evidence; a behaviour-preserving refactoring must not raise an alarm). *)
 EXTENDS NitroMVCC, Json, TLCExt
 
-VARIABLES l, bad, drift, stored
-tvars == <<vars, l, bad, drift, stored>>
+VARIABLES l, bad, drift, stored,
+          dx      \* the backup in progress: [on, delta, sn, exp]; exp = items of the stored view that collection workers
+                  \* unlinked while delta interleaving was active (doDeltaWrite must have written exactly these)
+tvars == <<vars, l, bad, drift, stored, dx>>
+NoDx == [on |-> FALSE, delta |-> FALSE, sn |-> 0, exp |-> {}]
 
 TLog == ndJsonDeserialize("trace.ndjson")
 Ev == TLog[l]
@@ -71,9 +74,14 @@ DriftChecks ==
      <<Ev.cur = currSn', "current snapshot number differs">>,
      <<Rng(Ev.pending) = Rng(inflight'), "lists pending at the gate differ from the model's inflight lists">> >>
 
-Judge(cs) == /\ bad' = Note(bad, First(cs \o ObsChecks), "BAD")
-             /\ drift' = Note(drift, First(DriftChecks), "DRIFT")
-             /\ UNCHANGED stored
+(* U = the released garbage lists unlinked by this step: with delta interleaving active, the versions in them that
+   the stored snapshot sees go to the delta files (nitro.go doDeltaWrite: bornSn <= sn < deadSn) *)
+DeltaOf(U) == {KV(x) : x \in {y \in vers : (\E s \in U : Pos(y) \in snaps[s].gc) /\ y.born <= dx.sn /\ y.dead > dx.sn}}
+JudgeU(cs, U) == /\ bad' = Note(bad, First(cs \o ObsChecks), "BAD")
+                 /\ drift' = Note(drift, First(DriftChecks), "DRIFT")
+                 /\ UNCHANGED stored
+                 /\ dx' = (IF dx.on /\ dx.delta THEN [dx EXCEPT !.exp = @ \cup DeltaOf(U)] ELSE dx)
+Judge(cs) == JudgeU(cs, {})
 
 Step(e) == l <= N /\ Ev.e = e /\ l' = l + 1
 LiveKV(k) == CHOOSE e \in live : e.k = k
@@ -86,8 +94,8 @@ ResetState ==
   /\ it' = [i \in Iters |-> NoIt]
   /\ live' = {} /\ view' = [s \in 1..MaxSn |-> <<>>]
 
-TInit == l = 2 /\ bad = "" /\ drift = "" /\ stored = <<>> /\ TLog[1].e = "Init" /\ Init
-TReset == Step("Init") /\ ResetState /\ stored' = <<>> /\ UNCHANGED <<bad, drift>>
+TInit == l = 2 /\ bad = "" /\ drift = "" /\ stored = <<>> /\ dx = NoDx /\ TLog[1].e = "Init" /\ Init
+TReset == Step("Init") /\ ResetState /\ stored' = <<>> /\ dx' = NoDx /\ UNCHANGED <<bad, drift>>
 
 TPut == /\ Step("Put") /\ Put(Ev.w, Ev.k, Ev.v)
         /\ Judge(<< <<Ev.ok = (Ev.k \notin LiveKeys), "C02:Put succeeded on a live key or was rejected for an absent key">> >>)
@@ -112,11 +120,11 @@ TOpen == /\ Step("Open")
 
 Processed(D) == {s \in Rng(D.infl) : s \notin Rng(Ev.pending)}
 TCloseSnap == /\ Step("CloseSnap") /\ CloseSnapU(Ev.sn, Processed(Drop(Ev.sn)))
-              /\ Judge(<<>>)
+              /\ JudgeU(<<>>, Processed(Drop(Ev.sn)))
 TGC == /\ Step("GC") /\ UNCHANGED vars /\ Judge(<<>>)
 TGCUnlink == /\ Step("GCUnlink")
              /\ (IF Ev.skipped THEN UNCHANGED vars ELSE GCUnlink(Ev.sn))
-             /\ Judge(<<>>)
+             /\ JudgeU(<<>>, IF Ev.skipped THEN {} ELSE {Ev.sn})
 
 TIterNew == /\ Step("IterNew") /\ IterNew(Ev.i, Ev.sn, Ev.rate)
             /\ Judge(<< <<Ev.ok = (snaps[Ev.sn].st = "open"), "C08:NewIterator succeeded on a fully released snapshot or returned nil for an open one">> >>)
@@ -142,7 +150,7 @@ TIterRefresh == /\ Step("IterRefresh")
                 /\ (IF it[Ev.i].valid THEN IterRefresh(Ev.i) ELSE UNCHANGED vars)
                 /\ IterJudge
 TIterClose == /\ Step("IterClose") /\ IterCloseU(Ev.i, Processed(Drop(it[Ev.i].snap)))
-              /\ Judge(<<>>)
+              /\ JudgeU(<<>>, Processed(Drop(it[Ev.i].snap)))
 
 (* Visitor: per-shard sequences in shard order *)
 RECURSIVE Flat(_, _)
@@ -163,9 +171,26 @@ TVisit ==
 
 (* ---- backup / restore (C05): the content restored must be the stored snapshot's view; the model then
         continues as the restored instance (every item born in epoch 0, one open snapshot) ---- *)
-TStoreBegin == Step("StoreBegin") /\ stored' = view[Ev.sn] /\ UNCHANGED <<vars, bad, drift>>
-TStore == /\ Step("Store") /\ UNCHANGED vars
-          /\ Judge(<< <<Ev.ok, "C05:StoreToDisk failed although no fault was injected">> >>)
+TStoreBegin == /\ Step("StoreBegin") /\ stored' = view[Ev.sn] /\ UNCHANGED <<vars, bad, drift>>
+               /\ dx' = [on |-> TRUE, delta |-> Ev.delta, sn |-> Ev.sn, exp |-> {}]
+(* What StoreToDisk wrote: the shard files (in shard order) are a strictly ascending sub-sequence of the stored view;
+   with delta interleaving every item of the view that is missing from them is in the delta files, which hold
+   nothing but items of the view (DeltaBackup.tla: ScanPlusDeltaIsView); without it the shard files ARE the view. *)
+StoreChecks ==
+  IF ~Ev.ok \/ "main" \notin DOMAIN Ev THEN <<>> ELSE
+  LET main == ToKVSeq(Ev.main)  df == Rng(ToKVSeq(Ev.dfile))  sv == Rng(stored) IN
+  << <<Ev.readerr = "", "C05:a shard or delta file of a successful backup cannot be decoded">>,
+     <<StrictAsc(main) /\ Rng(main) \subseteq sv, "C05:the shard files of the backup hold items that are not the stored snapshot's, or out of order / duplicated">>,
+     <<df \subseteq sv, "C05:the delta files of the backup hold an item the stored snapshot does not contain">>,
+     <<Rng(main) \cup df = sv, "C05:an item of the stored snapshot is in neither the shard files nor the delta files of the backup">>,
+     <<~dx.delta => main = stored, "C05:without delta interleaving the shard files differ from the stored snapshot">> >>
+TStore == /\ Step("Store") /\ UNCHANGED <<vars, stored>>
+          /\ bad' = Note(bad, First(<< <<Ev.ok, "C05:StoreToDisk failed although no fault was injected">> >> \o StoreChecks \o ObsChecks), "BAD")
+          /\ drift' = Note(drift, First(DriftChecks \o
+                 (IF Ev.ok /\ "dfile" \in DOMAIN Ev /\ dx.on /\ dx.delta
+                    THEN << <<Rng(ToKVSeq(Ev.dfile)) = dx.exp, "the delta files differ from the items unlinked by collection workers during the backup">> >>
+                    ELSE <<>>)), "DRIFT")
+          /\ dx' = NoDx
 RestoredVers == {[k |-> stored[i].k, v |-> stored[i].v, born |-> 0, dead |-> 0] : i \in 1..Len(stored)}
 TLoad ==
   /\ Step("Load")
@@ -178,7 +203,7 @@ TLoad ==
             /\ view' = [s \in 1..MaxSn |-> IF s = 1 THEN stored ELSE <<>>]
             /\ Judge(<< <<ToKVSeq(Ev.ritems) = stored, "C05:the restored snapshot's items differ from the stored snapshot (missing, extra, duplicated or out of order)">>,
                         <<Ev.rcount = Len(stored), "C05:Count() of the restored snapshot differs from the stored snapshot">> >>)
-       ELSE /\ UNCHANGED <<vars, drift, stored>>
+       ELSE /\ UNCHANGED <<vars, drift, stored, dx>>
             /\ bad' = Note(bad, "C05:LoadFromDisk failed on an undamaged backup", "BAD")
 TDone == l = N + 1 /\ UNCHANGED tvars
 
